@@ -7,6 +7,7 @@ import (
 	"go/token"
 	"go/types"
 	"regexp"
+	"sort"
 	"strings"
 )
 
@@ -24,6 +25,8 @@ func init() {
 			{ID: "C09-R7", Doc: "slot bookkeeping in both probe arms and in rehash", Run: c09r7},
 			{ID: "C09-R8", Doc: "every combiner created or taken is read back, discarded or handed on, on every path", Run: c09r8},
 			{ID: "C09-R9", Doc: "rows taken out of a combining frame (Compact) are handed on, on every path", Run: c09r9},
+			{ID: "C09-R10", Doc: "polarity of the table's tests and the rows they address (conditions evaluated, indices as linear forms)", Run: c09r10},
+			{ID: "C17-R7", Doc: "no compound nil/end-of-stream test is constant (shared)", Run: c17r7},
 			{ID: "C10-R4", Doc: "the reducing merge used to read a spilled combiner back repairs its heap after every cursor move (shared)", Run: c10r4},
 			{ID: "C10-R6", Doc: "reducing merge: combined value stored before refill (shared)", Run: c10r6},
 		},
@@ -56,6 +59,18 @@ func probeShape(fn *Func) (start, step, tryInit, tryPost string, loop *ast.ForSt
 				r := expr(a.Rhs[0])
 				if strings.Contains(r, tv) && strings.Contains(r, expr(a.Lhs[0])) {
 					step = replaceWord(replaceWord(r, tv, "TRY"), expr(a.Lhs[0]), "IDX")
+					// normalise `(a + b) & m` so that operand order does not matter
+					if be, ok := ast.Unparen(a.Rhs[0]).(*ast.BinaryExpr); ok && be.Op == token.AND {
+						sum, m := be.X, be.Y
+						if _, isSum := ast.Unparen(sum).(*ast.BinaryExpr); !isSum {
+							sum, m = m, sum
+						}
+						if sb, ok := ast.Unparen(sum).(*ast.BinaryExpr); ok && sb.Op == token.ADD {
+							ops := []string{replaceWord(replaceWord(expr(sb.X), tv, "TRY"), expr(a.Lhs[0]), "IDX"), replaceWord(replaceWord(expr(sb.Y), tv, "TRY"), expr(a.Lhs[0]), "IDX")}
+							sort.Strings(ops)
+							step = "(" + ops[0] + " + " + ops[1] + ") & " + expr(m)
+						}
+					}
 				}
 			}
 			return true
@@ -154,16 +169,34 @@ func c09r1(c *RC) {
 			"the growth threshold is "+thr+", not loadFactor*size: the table may fill completely before it grows")
 		c.Check(mask == size+"-1", "exec.(*combiningFrame).make|mask=size-1", pr.Pos(mk.Body.Pos()), "mask is "+mask+", want "+size+"-1")
 		c.Check(capA == size, "exec.(*combiningFrame).make|cap=size", pr.Pos(mk.Body.Pos()), "cap is "+capA)
-		// power-of-two guard
+		// power-of-two guard: `size & (size-1)` compared with 0, whatever the spelling
 		pow := false
+		leMk := newLinEnv(pr, mk)
 		ast.Inspect(mk.Body, func(n ast.Node) bool {
-			if ifs, ok := n.(*ast.IfStmt); ok {
-				t := strings.ReplaceAll(expr(ifs.Cond), " ", "")
-				if t == size+"&("+size+"-1)!=0" {
-					for _, call := range callsIn(ifs.Body) {
-						if !mk.Pkg.mayReturn(call) {
-							pow = true
-						}
+			ifs, ok := n.(*ast.IfStmt)
+			if !ok {
+				return true
+			}
+			be, ok := ast.Unparen(ifs.Cond).(*ast.BinaryExpr)
+			if !ok || be.Op != token.NEQ {
+				return true
+			}
+			var and ast.Expr
+			if v, isC := constInt(mk.Pkg, be.Y); isC && v == 0 {
+				and = be.X
+			} else if v, isC := constInt(mk.Pkg, be.X); isC && v == 0 {
+				and = be.Y
+			}
+			ab, ok := ast.Unparen(and).(*ast.BinaryExpr)
+			if and == nil || !ok || ab.Op != token.AND {
+				return true
+			}
+			a, b := leMk.norm(ab.X, 0).String(), leMk.norm(ab.Y, 0).String()
+			full, less := (lin{"$p0": 1}).String(), (lin{"$p0": 1, "": -1}).String()
+			if (a == full && b == less) || (a == less && b == full) {
+				for _, call := range callsIn(ifs.Body) {
+					if !mk.Pkg.mayReturn(call) {
+						pow = true
 					}
 				}
 			}
@@ -212,21 +245,8 @@ func c09r1(c *RC) {
 		return true
 	})
 	c.Check(dbl && grow != nil, "exec.(*combiningFrame).added|doubles", pr.Pos(added.Body.Pos()), "the table no longer grows by doubling its capacity (a power of two must stay a power of two)")
-	// growth is triggered by len > threshold
-	trig := false
-	ast.Inspect(added.Body, func(n ast.Node) bool {
-		if ifs, ok := n.(*ast.IfStmt); ok {
-			t := unrecv(added, strings.ReplaceAll(expr(ifs.Cond), " ", ""))
-			if t == "c.len<=c.threshold" || t == "c.threshold>=c.len" {
-				for _, st := range ifs.Body.List {
-					if _, ok := st.(*ast.ReturnStmt); ok {
-						trig = true
-					}
-				}
-			}
-		}
-		return true
-	})
+	// growth is triggered by len > threshold (evaluated, not matched as text)
+	trig, _ := c09LenThresholdGuard(added, newLinEnv(pr, added))
 	c.Check(trig, "exec.(*combiningFrame).added|grows-above-threshold", pr.Pos(added.Body.Pos()), "added no longer returns early only while len <= threshold: the table is allowed to fill up")
 	s1, st1, ti1, tp1, l1 := probeShape(comb)
 	s2, st2, ti2, tp2, l2 := probeShape(added)
@@ -248,34 +268,27 @@ func c09r2(c *RC) {
 	if comb == nil {
 		return
 	}
-	ok := false
-	var pos token.Pos = comb.Body.Pos()
-	ast.Inspect(comb.Body, func(n ast.Node) bool {
-		be, isBe := n.(*ast.BinaryExpr)
-		if !isBe || be.Op != token.LAND {
-			return true
+	chain, idx := c09ProbeChain(comb)
+	var hit *ast.IfStmt
+	if chain != nil {
+		hit, _ = chain.Else.(*ast.IfStmt)
+	}
+	// the loop variable over the new rows
+	iv := ""
+	for _, st := range comb.Body.List {
+		if f, ok := st.(*ast.ForStmt); ok && f.Init != nil {
+			if in, ok := f.Init.(*ast.AssignStmt); ok && len(in.Lhs) == 1 {
+				iv = expr(in.Lhs[0])
+			}
 		}
-		l, lok := ast.Unparen(be.X).(*ast.UnaryExpr)
-		r, rok := ast.Unparen(be.Y).(*ast.UnaryExpr)
-		if !lok || !rok || l.Op != token.NOT || r.Op != token.NOT {
-			return true
-		}
-		lc, lok := l.X.(*ast.CallExpr)
-		rc, rok := r.X.(*ast.CallExpr)
-		if !lok || !rok || len(lc.Args) != 2 || len(rc.Args) != 2 {
-			return true
-		}
-		if comb.Pkg.CalleeName(lc) != "frame.Frame.Less" || comb.Pkg.CalleeName(rc) != "frame.Frame.Less" {
-			return true
-		}
-		pos = be.Pos()
-		sameFrame := expr(lc.Fun) == expr(rc.Fun)
-		swapped := expr(lc.Args[0]) == expr(rc.Args[1]) && expr(lc.Args[1]) == expr(rc.Args[0]) && expr(lc.Args[0]) != expr(lc.Args[1])
-		ok = sameFrame && swapped
-		return true
-	})
-	c.Check(ok, "exec.(*combiningFrame).combine|hit-is-symmetric-not-less", pr.Pos(pos),
-		"the slot-hit test is not !Less(a,b) && !Less(b,a) on the same two rows of one frame: distinct keys are folded together, or equal keys get separate rows")
+	}
+	if hit == nil || idx == "" || iv == "" {
+		c.Fail("exec.(*combiningFrame).combine|hit-is-symmetric-not-less", pr.Pos(comb.Body.Pos()), "the probe loop has no key-equality arm")
+		return
+	}
+	ok, why := c09KeysEqualArm(comb, newLinEnv(pr, comb), hit.Cond, lin{idx: 1}, lin{"$recv.cap": 1, iv: 1})
+	c.Check(ok, "exec.(*combiningFrame).combine|hit-is-symmetric-not-less", pr.Pos(hit.Pos()),
+		"the slot-hit test is not true exactly when neither of the two rows (the slot's, and data row cap+i) is less than the other ("+why+"): distinct keys are folded together, or equal keys get separate rows")
 }
 
 func c09r3(c *RC) {
@@ -515,11 +528,13 @@ func c09r7(c *RC) {
 		return
 	}
 	emptyCond := unrecv(comb, strings.ReplaceAll(expr(chain.Cond), " ", ""))
-	idxVar := ""
-	if m := regexp.MustCompile(`^c\.hits\[(\w+)\]==0$`).FindStringSubmatch(emptyCond); m != nil {
-		idxVar = m[1]
+	_, idxVar := c09ProbeChain(comb)
+	if idxVar != "" {
+		if ok, _ := thenBranchIffZero(newLinEnv(pr, comb), chain.Cond, "$recv.hits["+idxVar+"]"); !ok {
+			idxVar = ""
+		}
 	}
-	c.Check(idxVar != "", comb.QName()+"|empty-slot-test", pr.Pos(chain.Pos()), "the first probe arm no longer tests c.hits[idx] == 0 (got "+emptyCond+")")
+	c.Check(idxVar != "", comb.QName()+"|empty-slot-test", pr.Pos(chain.Pos()), "the first probe arm is no longer taken exactly when c.hits[idx] is zero (got "+emptyCond+")")
 	if idxVar == "" {
 		return
 	}
